@@ -290,14 +290,83 @@ func GoRem(a, b *Term) *Term {
 	return Sub(a, Mul(b, GoQuo(a, b)))
 }
 
+// termDefs: definitions of named terms (name -> term), so that sequence simplifications
+// can look through names introduced to keep verification conditions small.
+var termDefs = map[string]*Term{}
+
+func resolveDef(t *Term) *Term {
+	for i := 0; i < 4; i++ {
+		d, ok := termDefs[t.S]
+		if !ok {
+			return t
+		}
+		t = d
+	}
+	return t
+}
+
+// splitApp splits "(op a1 a2 ...)" into op and argument strings.
+func splitApp(s string) (string, []string) {
+	if len(s) < 2 || s[0] != '(' || s[len(s)-1] != ')' {
+		return "", nil
+	}
+	inner := s[1 : len(s)-1]
+	var parts []string
+	depth := 0
+	start := 0
+	for i := 0; i <= len(inner); i++ {
+		if i == len(inner) || (inner[i] == ' ' && depth == 0) {
+			if i > start {
+				parts = append(parts, inner[start:i])
+			}
+			start = i + 1
+			continue
+		}
+		if inner[i] == '(' {
+			depth++
+		} else if inner[i] == ')' {
+			depth--
+		}
+	}
+	if len(parts) == 0 {
+		return "", nil
+	}
+	return parts[0], parts[1:]
+}
+
+// snocParts: t == a ++ [x]
+func snocParts(t *Term) (*Term, *Term, bool) {
+	t = resolveDef(t)
+	op, args := splitApp(t.S)
+	if op != "seq.++" || len(args) != 2 {
+		return nil, nil, false
+	}
+	uop, uargs := splitApp(args[1])
+	if uop != "seq.unit" || len(uargs) != 1 {
+		return nil, nil, false
+	}
+	return &Term{args[0], t.Sort}, &Term{uargs[0], t.Sort.Elem()}, true
+}
+
 // Sequences
 func SeqLen(s *Term) *Term {
 	if strings.HasPrefix(s.S, "(as seq.empty") {
 		return IntLit(0)
 	}
+	if a, _, ok := snocParts(s); ok {
+		return Add(SeqLen(a), IntLit(1))
+	}
+	if op, args := splitApp(resolveDef(s).S); op == "seq.unit" && len(args) == 1 {
+		return IntLit(1)
+	}
 	return App(SInt, "seq.len", s)
 }
-func SeqNth(s, i *Term) *Term { return App(s.Sort.Elem(), "seq.nth", s, i) }
+func SeqNth(s, i *Term) *Term {
+	if a, x, ok := snocParts(s); ok {
+		return Ite(Lt(i, SeqLen(a)), SeqNth(a, i), x)
+	}
+	return App(s.Sort.Elem(), "seq.nth", s, i)
+}
 func SeqExtract(s, off, n *Term) *Term {
 	return App(s.Sort, "seq.extract", s, off, n)
 }
